@@ -99,7 +99,11 @@ def cmd_first(cfg):
     nrules = len(keywords.SQL_REGEX)
 
     # M-INIT: at return of get_default_instance, in the calling thread
-    orig = lexer.Lexer.__dict__['get_default_instance'].__func__
+    # (best effort: if the hook point does not exist any more, only the
+    # per-thread results are judged)
+    raw = lexer.Lexer.__dict__.get('get_default_instance')
+    orig = getattr(raw, '__func__', None)
+    hook_ok = isinstance(raw, classmethod) and orig is not None
     init_checks = [0]
 
     def get_default_instance(cls):
@@ -125,7 +129,8 @@ def cmd_first(cfg):
             if k is not None and len(k) != 9:
                 violations.append('instance has %d dictionaries' % len(k))
         return inst
-    lexer.Lexer.get_default_instance = classmethod(get_default_instance)
+    if hook_ok:
+        lexer.Lexer.get_default_instance = classmethod(get_default_instance)
 
     # schedule perturbation: LINE events in lexer.py
     mon = getattr(sys, 'monitoring', None)
@@ -148,7 +153,8 @@ def cmd_first(cfg):
             f = getattr(f, '__func__', f)
             if f is not None and hasattr(f, '__code__'):
                 codes.append(f.__code__)
-        codes.append(orig.__code__)
+        if hook_ok:
+            codes.append(orig.__code__)
 
         def on_line(code, line):
             name = threading.current_thread().name
@@ -195,7 +201,7 @@ def cmd_first(cfg):
         'violations': violations[:5], 'hung': hung, 'events': len(events),
         'interleaving': sig, 'init_checks': init_checks[0],
         'threads_seen': len({n for n, _ in events}),
-        'pristine_before': first_state is None,
+        'pristine_before': first_state is None, 'minit_hook': hook_ok,
         'switches': sum(1 for a, b in zip(events, events[1:])
                         if a[0] != b[0]),
         'final_obs': observe_all(sqlparse),
@@ -203,7 +209,11 @@ def cmd_first(cfg):
 
 
 if __name__ == '__main__':
-    if sys.argv[1] == 'ref':
-        cmd_ref()
-    elif sys.argv[1] == 'first':
-        cmd_first(json.loads(sys.argv[2]))
+    try:
+        if sys.argv[1] == 'ref':
+            cmd_ref()
+        elif sys.argv[1] == 'first':
+            cmd_first(json.loads(sys.argv[2]))
+    except Exception as exc:      # a problem of the harness, not a verdict
+        import traceback
+        print(json.dumps({'harness_error': traceback.format_exc()[-800:]}))
